@@ -1,7 +1,7 @@
 #!/bin/bash
 # install_seed.sh <srcdir> <name> <property>  — verify a candidate on /repo HEAD and, if confirmed, keep it under /verif/seeded/<name>/
-SRC="$1"; NAME="$2"; PROP="$3"
-OUT=$(/verif/tools/verify_seed.sh "$SRC" "$NAME" 2>&1)
+SRC="$1"; NAME="$2"; PROP="$3"; PKG="${4:-}"
+OUT=$(/verif/tools/verify_seed.sh "$SRC" "$NAME" $PKG 2>&1)
 echo "$OUT" | grep -E "RESULT|VERIFIED|REJECTED"
 if echo "$OUT" | grep -q "^VERIFIED"; then
   D=/verif/seeded/$NAME; mkdir -p $D
